@@ -71,7 +71,8 @@ class Model:
         s.complete = {}
         for ti, (entry, runs, evc) in enumerate(s.threads):
             tid = ti + 1
-            done = [s.guard_expr(r.constraints) for r in runs if r.end == 'done']
+            done = [(r.done_guard if hasattr(r, 'done_guard') else s.guard_expr(r.constraints)) for r in runs if r.end == 'done']
+            s.dag = any(hasattr(r, 'done_guard') for r in runs)
             s.complete[tid] = z3.And(GE(s.len[tid], BIG), z3.Or(*done) if done else z3.BoolVal(False))
         s.all_complete = z3.And(*[s.complete[t] for t in range(1, s.nthreads + 1)]) if s.nthreads else z3.BoolVal(True)
         # enabledness
@@ -179,7 +180,7 @@ class Model:
             if w is r: continue
             if w.tid == r.tid:
                 if not s.ancestor(w, r): continue
-                if w.kind == 'RMW' and w.succ is not True:
+                if getattr(s, 'dag', False) or (w.kind == 'RMW' and w.succ is not True):
                     out.append(w); continue          # conditional own write: keep, cannot shadow older ones
                 if w.segk == r.segk and (own is None or w.idx > own.idx): own = w
                 elif w.segk != r.segk: out.append(w)
@@ -302,7 +303,7 @@ class Model:
             o = s.sc.obj_by_base.get(e.obj) if e.obj is not None else None
             out.append({'clk': ck, 'tid': tid, 'idx': idx, 'kind': e.kind, 'order': e.order, 'addr': e.addr, 'width': e.width,
                         'obj': (o.name + '+%d' % (e.addr - o.base)) if o is not None and e.addr else None, 'read': rv, 'write': wv,
-                        'site': e.site, 'sched': e.sched})
+                        'site': e.site, 'sched': e.sched if is_c(e.sched) else model.eval(e.sched, model_completion=True).as_long()})
         return out
 
     # ------------------------------------------------------------------ happens-before (C++20) over SC executions
